@@ -12,6 +12,7 @@ SimPace ==
   LET a == IF hist' # << >> THEN hist'[Len(hist')] ELSE [a |-> "", p |-> ""] IN
   /\ (Len(hist') > Len(hist) /\ a.a = "b" /\ a.p = "OTHER") => (now \div UNIT) % 4 = 1
   /\ (Len(hist') > Len(hist) /\ a.a = "q0") => (now \div UNIT) % 5 = 2
+  /\ (Len(hist') > Len(hist) /\ a.a = "q0zero") => (now \div UNIT) % 5 = 4
   \* a PINGRESP comes at once, or around the round-trip bound (so that walks reach the bound and the timeout)
   /\ (Len(hist') > Len(hist) /\ a.a = "b" /\ a.p = "PINGRESP") => (now = pingAt \/ now + 3 * UNIT >= pingAt + RTT)
 
